@@ -51,6 +51,9 @@ func checkC05(p *Prog, r *Report) {
 	// a plan already handed out to a request must stay what it was while hosts come and go
 	c15Cow(p, r, "C05")
 	c05ConnectionLoss(p, r)
+	resultThreading(p, r, "C05.result-threading", "proxy", "proxycore")
+	// the idempotence verdict of a BATCH is an input of every "if idempotent" clause of the policy
+	r.borrow("C04", "C05", func() { c04Batch(p, r, requestRoles(p)) })
 }
 
 func c05PolicyTable(p *Prog, r *Report) {
@@ -410,22 +413,22 @@ func c05ActionMap(p *Prog, r *Report, rr *reqRoles) {
 	reqMethods = append(reqMethods, p.methodsOf(rr.req)...)
 	for _, m := range reqMethods {
 		eachInstr(m, func(in ssa.Instruction) {
-		if st, ok := in.(*ssa.Store); ok {
-			if fa, ok := st.Addr.(*ssa.FieldAddr); ok && fieldOfAddr(fa) == rr.retryCountF {
-				if bo, ok := st.Val.(*ssa.BinOp); ok && bo.Op.String() == "+" {
-					if c, ok := constInt(bo.Y); ok && c == 1 {
-						if f, _ := loadedField(bo.X); f == rr.retryCountF {
-							incOK++
-							if m != rr.handleErr && !onlyCalledFrom(p, m, rr.handleErr, 3) {
-								stray = append(stray, fmt.Sprintf("%s: retry count incremented in %s, outside the error-result handler: an event that is not a policy decision (connection loss, re-prepare) uses up the retries the policy grants for a later error", p.Pos(st.Pos()), m.Name()))
+			if st, ok := in.(*ssa.Store); ok {
+				if fa, ok := st.Addr.(*ssa.FieldAddr); ok && fieldOfAddr(fa) == rr.retryCountF {
+					if bo, ok := st.Val.(*ssa.BinOp); ok && bo.Op.String() == "+" {
+						if c, ok := constInt(bo.Y); ok && c == 1 {
+							if f, _ := loadedField(bo.X); f == rr.retryCountF {
+								incOK++
+								if m != rr.handleErr && !onlyCalledFrom(p, m, rr.handleErr, 3) {
+									stray = append(stray, fmt.Sprintf("%s: retry count incremented in %s, outside the error-result handler: an event that is not a policy decision (connection loss, re-prepare) uses up the retries the policy grants for a later error", p.Pos(st.Pos()), m.Name()))
+								}
+								return
 							}
-							return
 						}
 					}
+					incOK = -100
 				}
-				incOK = -100
 			}
-		}
 		})
 	}
 	r.check(incOK >= 1, rule, "retry-count-increment", p.Pos(rr.handleErr.Pos()), "retryCount = retryCount + 1", "retry count is not incremented by one at each retry")
@@ -487,7 +490,6 @@ func c05Progress(p *Prog, r *Report, rr *reqRoles) {
 	}
 	r.check(found, rule, "exhaustion-error", p.Pos(rr.execLoop.Pos()), "plan exhaustion answers with a ServerError", "plan exhaustion does not answer with a ServerError")
 }
-
 
 // c05ConnectionLoss: the documented policy for a lost backend connection: an idempotent request
 // continues with the next host of its plan, whatever the error the connection ended with.
